@@ -421,9 +421,18 @@ def r4_metadata_tables(ctx, res):
                         and isinstance(v.args[0], ast.Constant):
                     written[k.value] = v.args[0].value
         if isinstance(n, ast.Assign) and isinstance(n.targets[0], ast.Subscript) and isinstance(n.targets[0].slice, ast.Constant):
-            for x in ast.walk(n.value):
+            val = n.value
+            if isinstance(val, ast.Name):
+                # `val = meta.get(k, ''); if val: d[attr] = val`
+                from ..pyutil import nearest_assignment
+                na = nearest_assignment(md.node, val.id, n)
+                if na is not None:
+                    val = na
+            for x in ast.walk(val):
                 if isinstance(x, ast.Subscript) and isinstance(x.slice, ast.Constant) and norm(x.value) == 'meta':
                     written[n.targets[0].slice.value] = x.slice.value
+                if isinstance(x, ast.Call) and norm(x.func) == 'meta.get' and x.args and isinstance(x.args[0], ast.Constant):
+                    written[n.targets[0].slice.value] = x.args[0].value
     key = 'meta_dict-keys'
     res.inst(key, lmf.loc(md.node), f'{len(written)} attributes written')
     wantw = {f'dc:{a}': a for a in dc} | {'status': 'status', 'note': 'note', 'confidenceScore': 'confidenceScore'}
